@@ -73,7 +73,7 @@ Definition lp_eqb (a b : lpath) : bool :=
   Bool.eqb (lp_rooted a) (lp_rooted b) && path_eqb (lp_comps a) (lp_comps b).
 
 (* ---------------------------------------------------------------------------------------- *)
-(* system calls.  [cwd] is the absolute location of the working directory (a directory). *)
+(* system calls.  [cwd] is the absolute location of the working directory, assumed to exist and to be a directory: n2 has chdir()ed into it. *)
 
 Definition step_comp (fs : fstree) (cur : path) (c : bytes) : errno + path :=
   if fs_is_dotdot c then inr (removelast cur)
